@@ -308,6 +308,9 @@ def fe_axis_drop(ctx):
 
 
 def run(ctx):
+    from . import e2e_rules as _e2e
+
+    ctx.attempt(_e2e.heterogeneous_rule, ctx, 'R12.E1')
     from ..shared import shared_container_rule as _shared_container_rule
 
     ctx.attempt(_shared_container_rule, ctx, "R12.8", scope=lambda f, _s=("EasyFEA.FEM._linalg", "EasyFEA.FEM._field"): f.module.name.startswith(_s), min_instances=30)
